@@ -359,6 +359,10 @@ func buildTarget(state *core.BuildState, target *core.BuildTarget, runRemotely b
 
 	checkLicences(state, target)
 
+	if !runRemotely {
+		// We are about to replace the metadata and outputs; the hashes recorded on the old ones must go first.
+		removeRuleHash(target)
+	}
 	if runRemotely {
 		if metadata.Cached {
 			target.SetState(core.ReusedRemotely)
